@@ -131,3 +131,10 @@ reg('C19', 'runtime monitoring: reference text-content oracle on tree snapshots 
     'into comment/CDATA text) or are empty/hostile; every select() is compared with the reference text content '
     'computed on a snapshot of the same tree.',
     'Trusted: the reference text rules in props/C19.py (node kinds by bs4 class, iframe cut for HTML documents).')
+reg('C20', 'runtime monitoring: position-formula oracle over every offset, DEBUG differential, printer CPU budget',
+    'SelectorSyntaxError is constructed for every offset 0..len(pattern) of generated multi-line patterns (\\n, \\r\\n, \\r, '
+    'empty lines, trailing breaks) and raised by compile() on damaged multi-line selectors (offset captured by a passive '
+    'probe on get_pattern_context); line, column, context lines and caret must follow the formula of the statement. '
+    'compile(p, DEBUG) must equal compile(p) in structure, error and results. pretty() must return within a CPU budget '
+    'and equal repr() up to whitespace outside string literals.',
+    'Trusted: formula() in props/C20.py; offsets inside a CRLF pair unspecified; context layout as in ASSUMPTIONS.')
